@@ -11,7 +11,7 @@ TARGETS = ['BC.Props.C12']
 PROP_FILES = ['BC/Props/C12.lean', 'BC/Lemmas/C12.lean', 'BC/Lemmas/Vec.lean']
 # source ties: function bodies regenerated from the Python source by translate/t_funcs.py, proved equal to the model functions
 SRC = {'module': 'BC.Props.C12Src', 'file': 'BC/Props/C12Src.lean',
-       'theorems': ['C12_src_wind_vector', 'C12_src_sock_init', 'C12_src_sock_vector_for_range', 'C12_src_sock_current_vector']}
+       'theorems': ['C12_src_wind_vector', 'C12_src_sock_init', 'C12_src_sock_vector_for_range', 'C12_src_sock_current_vector', 'C12_src_winds_sort_key']}
 THEOREMS = ['C12_mirror_wind', 'C12_mirror_step', 'C12_mirror_run', 'C12_zero_wind', 'C12_zero_winds_sock', 'C12_sock_invariant',
             'C12_sorted_any_order', 'C12_causal', 'C12_crosswind_step']
 STATEMENTS = {
